@@ -32,7 +32,8 @@ class Job:
                  unwind=None, strcap=32, timeout=None, tier='quick', cname=None, may_throw=None, srcrel=None,
                  extra_cflags=(), cbmc_flags=(), no_checks=False, stubs=(), self_const=None, arity=None,
                  inline_select=None, object_bits=None, lemma=False, defines=(), variant_of=None, kf=None,
-                 description='', cases=None, case=None, replay_ghost=(), replay_domain=None):
+                 description='', cases=None, case=None, replay_ghost=(), replay_domain=None, variants=None):
+        self.variants = variants   # list of (label, [defines]): the clause set is split over sub-jobs (same inputs)
         self.replay_domain = replay_domain
         self.replay_ghost = list(replay_ghost)
         self.name, self.func, self.props = name, func, set(props)
@@ -151,6 +152,7 @@ def build_tu(proj, job):
             need_struct.add(cfi.cls)
     for c in sorted(need_struct):
         parts.append(T.emit_struct(proj, c, real))
+    parts.append(T.capture_decls(contract))
     parts.append(contract.emit_ghost())
     # callee contracts
     replace_cnames = []
@@ -389,19 +391,29 @@ def expand_cases(job, kf=()):
             j.subname = job.name + '#kf%d' % k['line']
             out.append(j)
         return out
+    if getattr(job, 'variants', None):
+        out = []
+        for lab, defs in job.variants:
+            j = copy.copy(job)
+            j.variants = None
+            j.defines = list(job.defines) + list(defs)
+            j.subname = job.name + '#' + lab
+            out.extend(expand_cases(j))
+        return out
     if not job.cases:
         return [job]
     out = []
+    base = getattr(job, 'subname', job.name)
     for lab, cond in job.cases:
         j = copy.copy(job)
         j.cases = None
         j.case = (lab, cond)
-        j.subname = job.name + '#' + lab
+        j.subname = base + '#' + lab
         out.append(j)
     j = copy.copy(job)
     j.cases = None
     j.case_cover = list(job.cases)
-    j.subname = job.name + '#exhaustive'
+    j.subname = base + '#exhaustive'
     out.append(j)
     return out
 
